@@ -166,7 +166,7 @@ void vk_run_case(vk::Choice& c) {
   }
   RunCtl ctl; ctl.c = &c;
   ctl.plan = decode_plan(sd, c);
-  ctl.plan.fault_node = -1; ctl.plan.anon_fault = -1; ctl.plan.stop_after_completion = false;
+  ctl.plan.fault_node = -1; ctl.plan.anon_fault = -1; ctl.plan.stop_after_completion = false; ctl.plan.stop_call_node = -1;
   // more deferred work makes for more concurrency: inline completions become deferred with probability 1/2
   for (auto& s : ctl.plan.spec) for (auto& at : s.attempts) if (at.timing == 0 && c.flag()) at.timing = 1;
   g_workers = 1 + (int)c.upto(3);
